@@ -179,6 +179,23 @@ func newCBPAnchors(p *core.Prog) *cbpAnchors {
 		})
 	}
 	if a.sendFn == nil {
+		// the goroutine body is a named function or method: `go b.exportBatch(…)`
+		for _, fn := range p.FuncsIn(func(pp string) bool { return pp == core.CBPPath }) {
+			core.EachInstr(fn, func(i ssa.Instruction) {
+				if g, ok := i.(*ssa.Go); ok && g.Call.StaticCallee() == a.exportFn {
+					a.sendFn = fn
+					a.goInstr = g
+					// the parameters of the goroutine body stand for the arguments of the go statement
+					for k, prm := range a.exportFn.Params {
+						if k < len(g.Call.Args) {
+							core.BindParam(prm, g.Call.Args[k])
+						}
+					}
+				}
+			})
+		}
+	}
+	if a.sendFn == nil {
 		a.errs = append(a.errs, "the function invoking batch.export is not the target of a go statement")
 	}
 	return a
